@@ -477,6 +477,14 @@ def optimize_base_stock_levels(num_nodes=None, node_order_in_system=None, node_o
 	return S_star, C_star[N]	
 
 
+def _lead_time_sum(lead_times):
+	"""Return the sum of ``lead_times`` as an ``int`` if it is integer-valued (as required by the
+	discrete lead-time demand distributions) and as a ``float`` otherwise.
+	"""
+	total = float(np.sum(lead_times))
+	return int(total) if total.is_integer() else total
+
+
 def newsvendor_heuristic(num_nodes=None, node_order_in_system=None, node_order_in_lists=None,
 								echelon_holding_cost=None, lead_time=None,
 								stockout_cost=None, demand_mean=None, demand_standard_deviation=None,
@@ -636,7 +644,7 @@ def newsvendor_heuristic(num_nodes=None, node_order_in_system=None, node_order_i
 	# which L = sum of lead times of stages 1, ..., j) for j = 1, ..., N.
 	sum_ltd_dist = {}
 	for j in indices:
-		sum_ltd_dist[j] = demand_source.lead_time_demand_distribution(float(np.sum(L[1:(j+1)])))
+		sum_ltd_dist[j] = demand_source.lead_time_demand_distribution(_lead_time_sum(L[1:(j+1)]))
 	
 	# Solve newsvendor problems.
 	S_heur = {}
@@ -663,14 +671,14 @@ def newsvendor_heuristic(num_nodes=None, node_order_in_system=None, node_order_i
 		elif demand_source.type == 'UC':
 			# Uniform continuous.
 			# Build LTD distribution.
-			ltd_distrib = demand_source.lead_time_demand_distribution(float(np.sum(L[1:(j+1)])))
+			ltd_distrib = demand_source.lead_time_demand_distribution(_lead_time_sum(L[1:(j+1)]))
 			# Calculate newsvendor quantities.
 			S_u, _ = newsvendor_continuous(h_eff_u, stockout_cost, ltd_distrib)
 			S_l, _ = newsvendor_continuous(h_eff_l, stockout_cost, ltd_distrib)
 		elif demand_source.type in ('UD', 'CD'):
 			# Discrete.
 			# Build LTD distribution.
-			ltd_distrib = demand_source.lead_time_demand_distribution(float(np.sum(L[1:(j+1)])))
+			ltd_distrib = demand_source.lead_time_demand_distribution(_lead_time_sum(L[1:(j+1)]))
 			# Calculate newsvendor quantities.
 			S_u, _ = newsvendor_discrete(h_eff_u, stockout_cost, ltd_distrib)
 			S_l, _ = newsvendor_discrete(h_eff_l, stockout_cost, ltd_distrib)
